@@ -761,6 +761,51 @@ MUTANTS = [
 
     template <typename... Args>
     void internal_loop_construct""")]),
+    dict(name='c11-iterator-decrement-tests-the-new-index', prop='C11', clause='D5', edits=[('include/oneapi/tbb/concurrent_vector.h',
+        """        if (my_item != nullptr) {
+            // Going down, the segment boundary is crossed when the current element is the first one of its segment
+            if (vector_type::is_first_element_in_segment(my_index)) {
+                // If the iterator crosses a segment boundary, the pointer become invalid
+                // as possibly next segment is in another memory location
+                my_item = nullptr;
+            } else {
+                --my_item;
+            }
+        }
+        --my_index;
+        return *this;""",
+        """        --my_index;
+        if (my_item != nullptr) {
+            if (vector_type::is_first_element_in_segment(my_index)) {
+                my_item = nullptr;
+            } else {
+                --my_item;
+            }
+        }
+        return *this;""")]),
+    dict(name='c11-iterator-increment-tests-the-old-index', prop='C11', clause='D5', edits=[('include/oneapi/tbb/concurrent_vector.h',
+        """        ++my_index;
+        if (my_item != nullptr) {
+            if (vector_type::is_first_element_in_segment(my_index)) {
+                // If the iterator crosses a segment boundary, the pointer become invalid
+                // as possibly next segment is in another memory location
+                my_item = nullptr;
+            } else {
+                ++my_item;
+            }
+        }
+        return *this;""",
+        """        if (my_item != nullptr) {
+            if (vector_type::is_first_element_in_segment(my_index)) {
+                my_item = nullptr;
+            } else {
+                ++my_item;
+            }
+        }
+        ++my_index;
+        return *this;""")]),
+    dict(name='c11-at-lets-the-table-size-through', prop='C11', clause='D5', edits=[('include/oneapi/tbb/concurrent_vector.h',
+        "        if (base_type::number_of_segments(table) <= seg_index) {", "        if (base_type::number_of_segments(table) < seg_index) {")]),
     dict(name='c01-seed3-run-and-wait-handle-epilogue-on-exception-only', prop='C01', clause='D9', edits=[('include/oneapi/tbb/task_group.h',
         """            execute_and_wait(*acs::release(h), context(), m_wait_vertex.get_context(), context());
         }).on_completion([&] {""",
@@ -1731,6 +1776,8 @@ BENIGN = [
                 }
             });
             auto element_address""")]),
+    dict(name='c11-b-at-bound-written-the-other-way-round', prop='C11', edits=[('include/oneapi/tbb/concurrent_vector.h',
+        "        if (base_type::number_of_segments(table) <= seg_index) {", "        if (!(seg_index < base_type::number_of_segments(table))) {")]),
     dict(name='c01-b-group-wait-epilogue-in-a-named-lambda', prop='C01', edits=[('include/oneapi/tbb/task_group.h',
         """        try_call([&] {
             d1::wait(m_wait_vertex.get_context(), context());
